@@ -130,6 +130,7 @@ Definition P_B_FIRST : N := 26.          (* invariant: sat is at first position 
 Definition P_B_UNRECOGNIZED : N := 27.   (* invariant: all outputs are either change or recipient *)
 Definition P_B_FEE : N := 28.            (* invariant: fee estimation is correct *)
 Definition P_B_DUST : N := 29.           (* invariant: all outputs are above dust limit *)
+Definition P_B_SLOP_UNWRAP : N := 30.   (* fee(vbytes + 43).checked_sub(fee(vbytes)).unwrap() *)
 Definition P_FUEL : N := 99.             (* model artefact: loop fuel exhausted (proved unreachable) *)
 
 Definition add_amt (a b : N) : Res N := if a + b <=? U64_MAX then Ok (a + b) else Panic P_AMOUNT_ADD.
@@ -289,42 +290,42 @@ Section Builder.
     match s_outputs st with
     | [] => Panic P_NO_OUTPUT
     | (sc, _) :: _ =>
-      if sc =? w_recipient w then Ok st else
-      match s_unused st with
-      | [] => Panic P_NO_CHANGE
-      | c :: _ => pad_loop (S (length (s_utxos st))) (dust c) st
-      end
+      if sc =? w_recipient w then Ok st
+      else pad_loop (S (length (s_utxos st))) (dust sc) st
     end.
 
   (* ------------------------------------------------------------ add_value *)
-  Fixpoint add_loop (fuel : nat) (deficit : N) (st : St) : Res St :=
-    if deficit =? 0 then Ok st else
-    match fuel with
-    | O => Panic P_FUEL
-    | S f =>
-      let additional_fee := fee TB_ADDITIONAL_INPUT_VBYTES in
-      if U64_MAX <? deficit + additional_fee then err E_VALUE_OVERFLOW 0 else
-      do '(u, value, st') <- select_cardinal_utxo st (deficit + additional_fee) false;
-      if value <? additional_fee then err E_NOT_ENOUGH 0 else
-      let benefit := value - additional_fee in
-      do outs <- upd_last (fun v => add_amt v value) (s_outputs st');
-      let st'' := mkSt (s_utxos st') (s_inputs st' ++ [u]) outs (s_unused st') in
-      if deficit <? benefit then Ok st'' else add_loop f (deficit - benefit) st''
+  (* loop { total = min_value + estimate_fee(); deficit = total - last.value or break; ... } *)
+  Fixpoint add_loop (fuel : nat) (min_value : N) (st : St) : Res St :=
+    match last_output (s_outputs st) with
+    | None => Panic P_NO_OUTPUT
+    | Some (_, lv) =>
+      let estimated_fee := estimate_fee st in
+      if U64_MAX <? min_value + estimated_fee then err E_VALUE_OVERFLOW 0 else
+      let total := min_value + estimated_fee in
+      if total <=? lv then Ok st else
+      match fuel with
+      | O => Panic P_FUEL
+      | S f =>
+        let deficit := total - lv in
+        let additional_fee := fee TB_ADDITIONAL_INPUT_VBYTES in
+        if U64_MAX <? deficit + additional_fee then err E_VALUE_OVERFLOW 0 else
+        do '(u, value, st') <- select_cardinal_utxo st (deficit + additional_fee) false;
+        if value <? additional_fee then err E_NOT_ENOUGH 0 else
+        do outs <- upd_last (fun v => add_amt v value) (s_outputs st');
+        add_loop f min_value (mkSt (s_utxos st') (s_inputs st' ++ [u]) outs (s_unused st'))
+      end
     end.
 
   Definition add_value (st : St) : Res St :=
-    let estimated_fee := estimate_fee st in
     match last_output (s_outputs st) with
     | None => Panic P_NO_OUTPUT
-    | Some (ls, lv) =>
+    | Some (ls, _) =>
       let min_value := match w_target w with
                        | TPostage => dust ls
                        | TValue v | TExact v => v
                        end in
-      if U64_MAX <? min_value + estimated_fee then err E_VALUE_OVERFLOW 0 else
-      let total := min_value + estimated_fee in
-      if total <? lv then Ok st
-      else add_loop (S (length (s_utxos st))) (total - lv) st
+      add_loop (S (length (s_utxos st))) min_value st
     end.
 
   (* ------------------------------------------------------------ strip_value *)
@@ -398,14 +399,16 @@ Section Builder.
 
   Definition max_change_dust : N := N.max (dust (w_change0 w)) (dust (w_change1 w)).
 
-  Definition b_check_recipient (value : N) : Res unit :=
-    let slop := fee TB_ADDITIONAL_OUTPUT_VBYTES in
+  Definition b_check_recipient (vb value : N) : Res unit :=
+    if fee (vb + TB_ADDITIONAL_OUTPUT_VBYTES) <? fee vb then Panic P_B_SLOP_UNWRAP else
+    let slop := fee (vb + TB_ADDITIONAL_OUTPUT_VBYTES) - fee vb in
     match w_target w with
     | TPostage =>
       do lim <- add_amt TB_MAX_POSTAGE slop;
       if value <=? lim then Ok tt else Panic P_B_POSTAGE
     | TExact p =>
-      do lim <- add_amt p slop;
+      do lim0 <- add_amt p max_change_dust;
+      do lim <- add_amt lim0 slop;
       if value <=? lim then Ok tt else Panic P_B_POSTAGE
     | TValue t =>
       if value <? t then Panic P_B_VALUE_UNWRAP else
@@ -413,17 +416,17 @@ Section Builder.
       if value - t <=? lim then Ok tt else Panic P_B_VALUE
     end.
 
-  Fixpoint b_outputs (outs : list (N * N)) (offset sat_offset : N) : Res unit :=
+  Fixpoint b_outputs (vb : N) (outs : list (N * N)) (offset sat_offset : N) : Res unit :=
     match outs with
     | [] => Ok tt
     | (s, v) :: r =>
       do _ <- (if s =? w_recipient w then
-                 do _ <- b_check_recipient v;
+                 do _ <- b_check_recipient vb v;
                  if offset =? sat_offset then Ok tt else Panic P_B_FIRST
                else if (s =? w_change0 w) || (s =? w_change1 w) then Ok tt
                     else Panic P_B_UNRECOGNIZED);
       do o <- add_u64 offset v;
-      b_outputs r o sat_offset
+      b_outputs vb r o sat_offset
     end.
 
   Fixpoint b_add_inputs (inputs : list N) (acc : N) : Res N :=
@@ -456,7 +459,7 @@ Section Builder.
       if negb (Nat.leb (count (fun o => fst o =? w_change0 w) outs) 1
                && Nat.leb (count (fun o => fst o =? w_change1 w) outs) 1)
       then Panic P_B_CHANGE_ONCE else
-      do _ <- b_outputs outs 0 sat_offset;
+      do _ <- b_outputs (vbytes st) outs 0 sat_offset;
       do tin <- b_add_inputs inputs 0;
       do actual_fee <- b_sub_outputs outs tin;
       let expected_fee := fee (vsize (N.of_nat (length inputs)) (map fst outs)) in
@@ -473,7 +476,7 @@ Section Builder.
     if w_change0 w =? w_change1 w then err E_DUPLICATE 0 else
     if is_op_return (w_recipient w) then Ok tt else
     if negb (is_address (w_recipient w)) then err E_INVALID_ADDRESS 0 else
-    if (w_recipient w =? w_change0 w) || (w_recipient w =? w_change1 w) then err E_DUPLICATE 1 else
+    if (w_recipient w =? w_change0 w) || (w_recipient w =? w_change1 w) then err E_DUPLICATE 0 else
     match w_target w with
     | TValue v | TExact v =>
       if v <? dust (w_recipient w) then err E_DUST (dust (w_recipient w)) else Ok tt
